@@ -174,6 +174,17 @@ func init() {
 					strings.Contains(s, "userProcs")
 			}},
 		{"c12Skel_Enqueue", "martian/core/jobmanager_local.go", "LocalJobManager", "Enqueue", enqueueKeep},
+		// the environment sampling that feeds the availability updates: which quantities go
+		// into which Update* call (the values themselves are environment input)
+		{"c12Skel_refreshResources", "martian/core/jobmanager_local.go", "LocalJobManager", "refreshResources",
+			func(s string) bool {
+				for _, k := range []string{"Sem.Update", "Sem != nil", "GetProcessTreeMemory", "sysMem.Get", "GetMaxProcs", "GetUserProcessCount", "load.Get", "limitLoad"} {
+					if strings.Contains(s, k) {
+						return true
+					}
+				}
+				return false
+			}},
 		// cluster mode: reconciliation with the scheduler's queue (Martian/SemaphoreQueue.lean)
 		{"c12Skel_queryQueue", "martian/core/pipestance.go", "Pipestance", "queryQueue",
 			func(s string) bool { return !strings.Contains(s, "task") && !strings.Contains(s, "prepDone") }},
